@@ -107,7 +107,22 @@ func (m *MemStorage) ev(kind string, info any) Action {
 	return a
 }
 
+var lastQMu sync.Mutex
+var lastQCtx context.Context
+
+func lastQuerierCtxDone() <-chan struct{} {
+	lastQMu.Lock()
+	defer lastQMu.Unlock()
+	if lastQCtx != nil {
+		return lastQCtx.Done()
+	}
+	return nil
+}
+
 func (m *MemStorage) Querier(ctx context.Context, mint, maxt int64) (storage.Querier, error) {
+	lastQMu.Lock()
+	lastQCtx = ctx
+	lastQMu.Unlock()
 	if a := m.ev(EvQuerier, [2]int64{mint, maxt}); a.Err != nil {
 		return nil, a.Err
 	}
